@@ -38,12 +38,20 @@ def r_punct(v):
     return ["", "a,", "b, ", " ", "c -> d", ",", "e"][v.idx % 7]
 
 
+def r_control(v):
+    """
+    Labels as they come out of files and terminals: carriage returns, form feeds, Unicode line / paragraph
+    separators, NEL, tabs, NUL - none of them is the line feed that separates the vertices' lines.
+    """
+    return ["alpha\r", "a\x0cb", "\u2028x", "x\x85", "\x1c", "t\tab", "nul\x00", "\x0b", "y\u2029", "\x1e\x1d"][v.idx % 10] + str(v.idx)
+
+
 def k_int(v):
     """One callable used BOTH as rfunc and as sort: labels are ints whose text order is not their numeric order."""
     return v.idx * 7 - 20
 
 
-RFUNCS = {"k_int": k_int, "none": None, "idx": r_idx, "angle": r_angle, "padded": r_padded, "punct": r_punct}
+RFUNCS = {"k_int": k_int, "none": None, "idx": r_idx, "angle": r_angle, "padded": r_padded, "punct": r_punct, "control": r_control}
 
 
 def s_idx(v):
